@@ -440,6 +440,7 @@ Property prop_C13(const std::string& variant) {
         o.lattice_bias = true;
         o.vp_anywhere = true;
         o.gappy = true;
+        o.many_methods = true;
         o.allow_dup_defs = true;
         o.max_classes = 12;
         o.max_methods = 4;
